@@ -141,8 +141,64 @@ func c10(x *Ctx) {
 			okT := false
 			if bo, ok := st.Val.(*ssa.BinOp); ok && bo.Op == token.QUO {
 				_, isConst := bo.X.(*ssa.Const)
+				// the divisor is the rate: a read of the rate field, or the very value that is stored into it
+				// (also when the division sits in a setter helper that is handed that value)
+				isRate := func(v ssa.Value) bool {
+					if loadsField(v, rateF) {
+						return true
+					}
+					if v.Referrers() != nil {
+						for _, r := range *v.Referrers() {
+							if s2, ok := r.(*ssa.Store); ok && s2.Val == v {
+								if fr, _, ok := eng.FieldRefOf(s2.Addr); ok && rateF(fr) {
+									return true
+								}
+							}
+						}
+					}
+					return false
+				}
 				_, fromRate := eng.Derives(bo.Y, func(v ssa.Value) bool { return loadsField(v, rateF) }, eng.FlowOpts{})
-				okT = isConst && fromRate
+				okT = isConst && (fromRate || x.mustDerive(bo.Y, isRate))
+				// … and the whole rate: a divisor capped from above (min(rate, K)) stops shrinking the threshold while
+				// the reported rate keeps growing, so beyond K the kept set no longer matches the rate that is reported
+				var capped func(v ssa.Value, d int) bool
+				capped = func(v ssa.Value, d int) bool {
+					if d > 6 {
+						return false
+					}
+					switch y := v.(type) {
+					case *ssa.Convert:
+						return capped(y.X, d+1)
+					case *ssa.ChangeType:
+						return capped(y.X, d+1)
+					case *ssa.Phi:
+						for _, e := range y.Edges {
+							if capped(e, d+1) {
+								return true
+							}
+						}
+					case *ssa.Call:
+						if b, ok := y.Call.Value.(*ssa.Builtin); ok {
+							if b.Name() == "min" {
+								for _, a := range y.Call.Args {
+									if _, isK := a.(*ssa.Const); isK {
+										return true
+									}
+								}
+							}
+							for _, a := range y.Call.Args {
+								if capped(a, d+1) {
+									return true
+								}
+							}
+						}
+					}
+					return false
+				}
+				if okT && capped(bo.Y, 0) {
+					okT = false
+				}
 			}
 			c.Decide(okT, "C10.threshold-monotone", name+"/"+BaseName(w.Fn)+"/upperBound", x.Pos(st), "threshold = MAX / rate", "the threshold is not stored as CONSTANT / rate: it is no longer monotone non-increasing in the rate")
 		}
@@ -163,6 +219,24 @@ func c10(x *Ctx) {
 			})
 			return out
 		}
+		// a call to a helper of the package that stores the field counts as a store at the call site
+		var storesDeep func(fn *ssa.Function, pred func(eng.FieldRef) bool, depth int) []ssa.Instruction
+		storesDeep = func(fn *ssa.Function, pred func(eng.FieldRef) bool, depth int) []ssa.Instruction {
+			out := storesOf(fn, pred)
+			if depth >= 2 {
+				return out
+			}
+			eng.Instrs(fn, func(in ssa.Instruction) {
+				if cl, ok := in.(*ssa.Call); ok {
+					if cal := cl.Call.StaticCallee(); cal != nil && cal.Pkg == fn.Pkg && len(cal.Blocks) > 0 && cal != fn {
+						if len(storesDeep(cal, pred, depth+1)) > 0 {
+							out = append(out, in)
+						}
+					}
+				}
+			})
+			return out
+		}
 		has := func(set []ssa.Instruction, in ssa.Instruction) bool {
 			for _, t := range set {
 				if t == in {
@@ -177,12 +251,22 @@ func c10(x *Ctx) {
 				continue
 			}
 			doneFn[w.Fn] = true
-			rateStores, thrStores := storesOf(w.Fn, rateF), storesOf(w.Fn, thrF)
+			rateStores, thrStores := storesDeep(w.Fn, rateF, 0), storesDeep(w.Fn, thrF, 0)
 			if len(thrStores) == 0 {
 				continue
 			}
 			c.Examined++
 			split := false
+			// a helper that takes the lock itself is a critical section of its own (the mutex is not reentrant)
+			for _, set := range [][]ssa.Instruction{rateStores, thrStores} {
+				for _, in := range set {
+					if cl, ok := in.(*ssa.Call); ok {
+						if cal := cl.Call.StaticCallee(); cal != nil && len(callsIn(cal, "(*sync.RWMutex).Lock", "(*sync.Mutex).Lock")) > 0 {
+							split = true
+						}
+					}
+				}
+			}
 			for _, dir := range [][2][]ssa.Instruction{{rateStores, thrStores}, {thrStores, rateStores}} {
 				for _, from := range dir[0] {
 					to := dir[1]
